@@ -76,8 +76,10 @@ def _case(draw):
             'n': draw(st.sampled_from([None, 0, 1, 2, 5, 100, -1, -5])),
             'cids': draw(st.lists(st.sampled_from(ALPH + [2, 9]), max_size=5)),
             'sc': draw(st.booleans()),
+            # (a subset assembled from several selections may list an id more than once)
             'ss': draw(st.none() | st.lists(st.integers(0, max(0, n + 1)), max_size=n + 2,
-                                            unique=True)),
+                                            unique=True) |
+                       st.lists(st.integers(0, max(0, n + 1)), max_size=n + 4)),
         })
     return {'bounds': bounds_out, 'times': times, 'clusters': clusters, 'nkept': nkept,
             'calls': calls, 'np_seed': draw(st.integers(0, 2 ** 31 - 1)),
@@ -88,6 +90,9 @@ def _big_cases(th):
     # clusters of tens of thousands of spikes of which only a few are eligible
     for i, n in enumerate([30000] + ([10001, 200000, 1500000] if th else [])):
         yield {'k': 'big', 'n': n, 'seed': 17 + i}
+    # the time vector need not be sorted (the selector is a stand-alone class)
+    for i, n in enumerate([70000] + ([140000] if th else [])):
+        yield {'k': 'big', 'n': n, 'seed': 40 + i, 'unsorted': True}
 
 
 def _grid_cases(th):
@@ -112,7 +117,10 @@ def _expand_grid(par):
 def _expand_big(par):
     n = par['n']
     rs = np.random.RandomState(par['seed'])
-    times = np.sort(rs.randint(0, 4 * n, size=n)).tolist()
+    times = np.sort(rs.randint(0, 4 * n, size=n))
+    if par.get('unsorted'):
+        times = rs.permutation(times)
+    times = times.tolist()
     clusters = [0] * n
     for i in rs.randint(0, n, size=50):
         clusters[int(i)] = [1, 3][int(i) % 2]
@@ -227,7 +235,8 @@ def classify(case, info):
     if case.get('k') == 'grid':
         return ['grid:%d-chunks-kept-count-as-%s' % (case['nchunks'], case['nkept_dtype'])], True
     if case.get('k') == 'big':
-        return ['big:%d-spikes-in-one-cluster' % case['n'], 'sparse-eligibility'], True
+        return ['big:%d-spikes-in-one-cluster' % case['n'], 'sparse-eligibility'] + (
+            ['unsorted-times'] if case.get('unsorted') else []), True
     labels = []
     nt = False
     bs = set(case['bounds'])
